@@ -75,6 +75,9 @@ pub fn io_event(kind: &'static str, path: &str, off: u64, len: u64) -> IoDecisio
             .unwrap_or_else(|e| e.into_inner())
             .push(format!("{} {} {} {} {}", n, kind, if file.is_empty() { "-" } else { file }, off, len));
     }
+    if kind == "clean_write" {
+        clean_gate_write();
+    }
     if counted && n != 0 {
         if n == EXIT_AT.load(Ordering::SeqCst) {
             if kind == "uring_sqe" {
@@ -87,4 +90,97 @@ pub fn io_event(kind: &'static str, path: &str, off: u64, len: u64) -> IoDecisio
         }
     }
     IoDecision::Proceed
+}
+
+// ---------------------------------------------------------------------------------------
+// Clean-marker persister gate (deterministic schedules of the background persister thread
+// for the external verification harness).  Off by default: both gate points return at once.
+// When switched on, every persister thread gets a sequence number at its first arrival and
+// waits (0) at the top of its loop, before it receives from the channel, (1) right after it
+// has upgraded its Weak to the tracker, before persist_topics, and (2) right before it writes
+// the marker file (after the snapshot of the states was taken), until the harness grants it
+// a pass for that point.  A persister whose tracker is gone is never held
+// at the top (it is about to exit).  Nothing here changes what the persister does, only when.
+
+static CLEAN_GATE_ON: AtomicBool = AtomicBool::new(false);
+static CLEAN_SEQ: AtomicU64 = AtomicU64::new(0);
+/// (persister seq, gate point) -> passes granted and not yet used
+static CLEAN_PASSES: Mutex<Vec<(u64, u8, u64)>> = Mutex::new(Vec::new());
+/// persister seq -> (arrivals so far, gate point it waits at or 255 when running)
+static CLEAN_AT: Mutex<Vec<(u64, u64, u8)>> = Mutex::new(Vec::new());
+thread_local! { static CLEAN_MY_SEQ: std::cell::Cell<u64> = const { std::cell::Cell::new(0) }; }
+
+pub fn clean_gate_enable(on: bool) {
+    CLEAN_GATE_ON.store(on, Ordering::SeqCst);
+}
+/// Sequence number of the most recently registered persister thread (0: none yet).
+pub fn clean_gate_last_seq() -> u64 {
+    CLEAN_SEQ.load(Ordering::SeqCst)
+}
+/// Let persister `seq` pass gate `point` (0 = loop top, 1 = upgraded, 2 = before the file write) once.
+pub fn clean_gate_pass(seq: u64, point: u8) {
+    let mut g = CLEAN_PASSES.lock().unwrap_or_else(|e| e.into_inner());
+    if let Some(e) = g.iter_mut().find(|e| e.0 == seq && e.1 == point) {
+        e.2 += 1;
+    } else {
+        g.push((seq, point, 1));
+    }
+}
+/// (number of gate arrivals of persister `seq`, point it waits at; 255 = not waiting)
+pub fn clean_gate_where(seq: u64) -> (u64, u8) {
+    let g = CLEAN_AT.lock().unwrap_or_else(|e| e.into_inner());
+    g.iter().find(|e| e.0 == seq).map(|e| (e.1, e.2)).unwrap_or((0, 255))
+}
+fn clean_gate_set(seq: u64, arrived: bool, point: u8) {
+    let mut g = CLEAN_AT.lock().unwrap_or_else(|e| e.into_inner());
+    if let Some(e) = g.iter_mut().find(|e| e.0 == seq) {
+        if arrived {
+            e.1 += 1;
+        }
+        e.2 = point;
+    } else {
+        g.push((seq, 1, point));
+    }
+}
+fn clean_gate_take(seq: u64, point: u8) -> bool {
+    let mut g = CLEAN_PASSES.lock().unwrap_or_else(|e| e.into_inner());
+    match g.iter_mut().find(|e| e.0 == seq && e.1 == point && e.2 > 0) {
+        Some(e) => {
+            e.2 -= 1;
+            true
+        }
+        None => false,
+    }
+}
+fn clean_gate_wait(point: u8, alive: &dyn Fn() -> bool) {
+    if !CLEAN_GATE_ON.load(Ordering::SeqCst) {
+        return;
+    }
+    let mut seq = CLEAN_MY_SEQ.with(|c| c.get());
+    if seq == 0 {
+        if point != 0 {
+            return; // not a persister thread that registered at its loop top
+        }
+        seq = CLEAN_SEQ.fetch_add(1, Ordering::SeqCst) + 1;
+        CLEAN_MY_SEQ.with(|c| c.set(seq));
+    }
+    clean_gate_set(seq, true, point);
+    loop {
+        if !CLEAN_GATE_ON.load(Ordering::SeqCst) || (point == 0 && !alive()) || clean_gate_take(seq, point) {
+            break;
+        }
+        std::thread::sleep(std::time::Duration::from_micros(200));
+    }
+    clean_gate_set(seq, false, 255);
+}
+/// Called by the persister at the top of every loop iteration.
+pub fn clean_gate_top(alive: &dyn Fn() -> bool) {
+    clean_gate_wait(0, alive);
+}
+/// Called by the persister right after it has upgraded its Weak, before persist_topics.
+pub fn clean_gate_upgraded() {
+    clean_gate_wait(1, &|| true);
+}
+fn clean_gate_write() {
+    clean_gate_wait(2, &|| true);
 }
